@@ -15,6 +15,7 @@ import (
 	"net/url"
 	"os"
 	"sync"
+	"sync/atomic"
 	"time"
 
 	"github.com/saucelabs/forwarder/internal/martian/h2"
@@ -262,6 +263,8 @@ func h2Scenario1(seed int64, idx int, dir string, acts []h2Act, ca *harnessCA, c
 	grantC := 65535
 	initWin := 65535
 	maxFrame := uint32(16384)
+	var aMaxFrame atomic.Int64
+	aMaxFrame.Store(16384)
 	var bmu sync.Mutex
 	expHdr := map[uint32][][]hpack.HeaderField{}
 	expES := map[uint32][]bool{}
@@ -396,6 +399,9 @@ func h2Scenario1(seed int64, idx int, dir string, acts []h2Act, ca *harnessCA, c
 				sc.log("a_credit", "s", int(f.StreamID), "n", int(f.Increment))
 			case *http2.SettingsFrame:
 				if !f.IsAck() {
+					if v, ok := f.Value(http2.SettingMaxFrameSize); ok {
+						aMaxFrame.Store(int64(v)) // the frame size A has been told it may use from now on
+					}
 					// nothing may be sent between HEADERS and its CONTINUATION
 					amu.Lock()
 					if inBlock {
@@ -422,19 +428,20 @@ func h2Scenario1(seed int64, idx int, dir string, acts []h2Act, ca *harnessCA, c
 	for _, a := range acts {
 		switch a.A {
 		case "data":
-			// a conforming sender never exceeds the 16384-octet frame size it was told
+			// a conforming sender never exceeds the frame size it was told (16384 octets unless a SETTINGS frame said otherwise)
 			n, pad, first := a.N, a.Pad, true
 			for first || n > 0 {
+				lim := int(aMaxFrame.Load())
 				k := n
-				if k > 16384 {
-					k = 16384
+				if k > lim {
+					k = lim
 				}
 				p := 0
 				if first {
 					p = pad
 				}
-				if p > 0 && k+p+1 > 16384 {
-					k = 16384 - p - 1
+				if p > 0 && k+p+1 > lim {
+					k = lim - p - 1
 				}
 				es := a.Es && n-k == 0
 				data := streamBytes(seed, dir, a.S, sndOff[a.S], k)
